@@ -380,7 +380,7 @@ pub fn ops_strategy(n_peers: u8, mix: Mix, max_fragments: usize) -> BoxedStrateg
     let crowd = (1030u16..1300, prop_oneof![Just(Dt::Ms1), Just(Dt::TimeoutFrac40)]).prop_map(|(n, dt)| vec![Op::DeliverAll, Op::SubmitToMany { n }, Op::Advance(dt)]).boxed();
     let frag = match mix {
         Mix::Identity => prop_oneof![18 => single, 12 => attack, 2 => spoof_race, 1 => early_replay, 2 => replay_accepted].boxed(),
-        Mix::Exemptions => prop_oneof![600 => single, 100 => attack, 1 => crowd].boxed(),
+        Mix::Exemptions => prop_oneof![2400 => single, 400 => attack, 1 => crowd].boxed(),
         Mix::Tamper => prop_oneof![30 => single, 6 => exchange, 1 => spoof_race, 1 => old_key_fallback].boxed(),
         Mix::Replay => prop_oneof![30 => single, 6 => exchange, 1 => late_handshake, 1 => early_replay, 2 => replay_accepted].boxed(),
         _ => prop_oneof![60 => single, 1 => burst_fail, 2 => slow_challenge].boxed(),
